@@ -919,7 +919,7 @@ impl<
         // might be different from the expected one
         shard_edge.set_up_shards(self.num_keys, self.eps);
 
-        let shard_store = sig_store.into_shard_store(shard_edge.shard_high_bits())?;
+        let mut shard_store = sig_store.into_shard_store(shard_edge.shard_high_bits())?;
         let max_shard = shard_store.shard_sizes().iter().copied().max().unwrap_or(0);
         let filter = TypeId::of::<V>() == TypeId::of::<EmptyVal>();
 
@@ -948,7 +948,19 @@ impl<
         }
 
         if max_shard as f64 > 1.01 * self.num_keys as f64 / shard_edge.num_shards() as f64 {
-            // This might sometimes happen with small sharded graphs
+            // This might sometimes happen with small sharded graphs, but it
+            // happens with every seed if a key is repeated so many times
+            // that its shard is too big: if requested, we look for
+            // duplicates before trying another seed
+            if self.check_dups {
+                for shard in shard_store.iter() {
+                    let mut shard = shard.as_ref().clone();
+                    shard.radix_sort_builder().sort();
+                    if shard.par_windows(2).any(|w| w[0].sig == w[1].sig) {
+                        return Err(SolveError::DuplicateSignature.into());
+                    }
+                }
+            }
             Err(SolveError::MaxShardTooBig.into())
         } else {
             let data = new_data(
